@@ -29,8 +29,20 @@ const TarFeatureFlags uint64 = CaFormatWith32BitUIDs |
 func Tar(ctx context.Context, w io.Writer, fs FilesystemReader) error {
 	enc := NewFormatEncoder(w)
 	buf := &fsBufReader{fs, nil}
-	_, err := tar(ctx, enc, buf, nil)
-	return err
+	if _, err := tar(ctx, enc, buf, nil); err != nil {
+		return err
+	}
+	// The archive is complete when the root is. Entries have to follow their
+	// directory, one that comes when its directory has been left already (as
+	// tar streams allow) can't be placed any more. Don't drop it silently.
+	f, err := buf.Next()
+	if err == nil {
+		return fmt.Errorf("entry '%s' does not follow the directory it is in", f.Path)
+	}
+	if err != io.EOF {
+		return err
+	}
+	return nil
 }
 
 func tar(ctx context.Context, enc FormatEncoder, fs *fsBufReader, f *File) (n int64, err error) {
